@@ -67,5 +67,5 @@ func (e Enum) MarshalJSON() ([]byte, error) {
 	}
 	b.WriteByte(']')
 
-	return b.Bytes(), nil
+	return internal.CopyBytes(b.Bytes()), nil
 }
